@@ -278,7 +278,11 @@ pub fn roundtrips(level: &PriceLevel, counters: &mut [u64; 7]) -> Vec<String> {
         out.push(e);
     }
     if let Err(e) = mon::obs_consistent(&orig) {
-        out.push(format!("level before round-trip: {}", e));
+        out.push(format!(
+            "level before round-trip: {} (listing: {})",
+            e,
+            orig.orders.iter().map(model::short).collect::<Vec<_>>().join(" ")
+        ));
     }
     for route in 0..hseq::N_ROUTES {
         counters[route as usize] += 1;
@@ -351,6 +355,23 @@ pub fn adversarial(level: &PriceLevel, rng: &mut Rng, n_checked: &mut u64) -> Ve
         ),
         Err(e) => check("from_snapshot_json", Err(format!("package to_json failed: {}", e))),
     }
+    // the library's own package constructor fed the lying snapshot
+    match PriceLevelSnapshotPackage::new(snap.clone()) {
+        Ok(p2) => {
+            check(
+                "SnapshotPackage::new(lying) -> from_snapshot_package",
+                PriceLevel::from_snapshot_package(p2.clone()).map_err(|e| e.to_string()),
+            );
+            match p2.to_json() {
+                Ok(j) => check(
+                    "SnapshotPackage::new(lying) -> to_json -> from_snapshot_json",
+                    PriceLevel::from_snapshot_json(&j).map_err(|e| e.to_string()),
+                ),
+                Err(e) => check("SnapshotPackage::new(lying) -> to_json", Err(e.to_string())),
+            }
+        }
+        Err(e) => check("SnapshotPackage::new(lying)", Err(e.to_string())),
+    }
     let mut data = PriceLevelData::from(level);
     data.visible_quantity = lv;
     data.hidden_quantity = lh;
@@ -389,7 +410,12 @@ pub fn adversarial(level: &PriceLevel, rng: &mut Rng, n_checked: &mut u64) -> Ve
 pub fn c10() -> SeqCheck {
     let mut cfgs = modes_general();
     for c in cfgs.iter_mut() {
-        c.op_w[8] = 2;
+        // no rebuild operations inside the history: the judge re-executes the operation list on a
+        // fresh level, and a level rebuilt from a listing with timestamp ties gets a queue order
+        // that depends on DashMap's per-instance hasher, so the re-execution could diverge from
+        // the run the operations were generated against (the round-trips themselves are applied
+        // by the judge to copies, at random points)
+        c.op_w[8] = 0;
     }
     let mut nm = GenCfg::base("non-monotone-ts");
     nm.ts = TsMode::NonMonotone;
